@@ -60,6 +60,11 @@ void reset_main_globals() {
 
 bool serve_loop_running() { return g_run_loop.load(std::memory_order_acquire); }
 
+// the CLI's own reconstruction + decryption + hash check (anonymous-namespace function of main.cpp)
+std::optional<std::vector<std::uint8_t>> cli_decrypt(const ephemeralnet::protocol::Manifest& manifest, const ephemeralnet::protocol::ChunkPayload& payload) {
+    return decrypt_chunk_with_manifest(manifest, payload);
+}
+
 ephemeralnet::Node* daemon_node(int pid) { auto it = daemon_registry().find(pid); return it == daemon_registry().end() ? nullptr : it->second.node; }
 std::mutex* daemon_node_mutex(int pid) { auto it = daemon_registry().find(pid); return it == daemon_registry().end() ? nullptr : it->second.node_mutex; }
 void reset_daemon_registry() { daemon_registry().clear(); }
